@@ -30,6 +30,7 @@ import asyncio  # noqa: E402
 import importlib  # noqa: E402
 
 from spec import opspec as SO  # noqa: E402
+import re as _re2  # noqa: E402
 
 
 class FakeReader:
@@ -147,6 +148,19 @@ def _abstract_args(spec, frame):
         a["slot"] = int(args[0]) if args[0].isdigit() else -1
     elif op == "set_position":
         a["position"] = args[0]
+    elif op == "create_schedule":
+        ws = " \t\n\r\x0b\x0c\x1c\x1d\x1e\x1f"
+        pat = r"(2[0-3]|[0-1]\d|\d):([0-5]\d|\d)"
+        a["clock_ok"] = all(_re2.fullmatch(pat, t.strip(ws)) is not None for t in args[:2])
+        a["clock_exact"] = all(_re2.fullmatch(pat, t) is not None for t in args[:2])
+        days = list(args[2]) if isinstance(args[2], (list, tuple, set)) else [args[2]]
+        a["days_dup"] = len(set(days)) != len(days)
+        a["mask"] = sum({DAY_BIT[d.name] for d in days})
+        if frame is not None and len(frame) >= 95:
+            a["start_t"] = int.from_bytes(frame[87:91], "little")
+            a["end_t"] = int.from_bytes(frame[91:95], "little")
+        else:
+            a["start_t"] = a["end_t"] = 0
     return a
 
 
@@ -180,6 +194,18 @@ def o_c02(spec, obs):
         return False, "argument outside the documented domain: the statement is silent"
     if cmd is None:
         return True, "accepted arguments but no command frame was written (%s)" % (obs.get("exception"),)
+    if op == "create_schedule" and spec.get("zone"):
+        import zoneinfo
+        import datetime as dt
+
+        z = zoneinfo.ZoneInfo(spec["zone"])
+        args = [denorm(x) for x in spec["args"]]
+        dates = {dt.datetime.fromtimestamp(c, z).strftime("%Y-%m-%d") for c in (spec.get("clock") or [])}
+        for text, v in ((args[0], a["start_t"]), (args[1], a["end_t"])):
+            hh, mm = [int(x) for x in text.strip().split(":")]
+            loc = dt.datetime.fromtimestamp(v, z)
+            if loc.strftime("%Y-%m-%d") not in dates or (loc.hour, loc.minute, loc.second) != (hh, mm, 0):
+                return True, "schedule time %r encoded as %d = local %s in %s (dates of the call: %s)" % (text, v, loc, spec["zone"], sorted(dates))
     exp = SO.expected_frame(O, SO.command_kind(op), op, a)
     if cmd != exp:
         d = [i for i in range(min(len(cmd), len(exp))) if cmd[i] != exp[i]]
@@ -581,4 +607,91 @@ def o_c03(spec, obs):
                 return True, "op %d frame %d carries device id %s" % (i, k, f[40:43].hex())
         if "exception" not in (obs["results"][i] if isinstance(obs["results"][i], dict) else {}) and len(fr) != 2 and o["op"] != "control_breeze_device":
             return True, "op %d wrote %d frames" % (i, len(fr))
+    return False, "ok"
+
+
+# ------------------------------------------------------------------------------- C11 / C13
+import re as _re  # noqa: E402
+
+
+@kind("c11")
+def k_c11(spec):
+    from aioswitcher.schedule import tools
+
+    out = {}
+    with Env(spec):
+        try:
+            enc = tools.time_to_hexadecimal_timestamp(spec["text"])
+            out["enc"] = enc
+            if spec["mode"] == "roundtrip":
+                out["dec"] = tools.hexadecimale_timestamp_to_localtime(enc.encode())
+            # ground truth through zoneinfo, independent of the library and of libc
+            import zoneinfo
+            import datetime as dt
+
+            z = zoneinfo.ZoneInfo(spec["zone"])
+            v = int.from_bytes(bytes.fromhex(enc), "little") if len(enc) == 8 else None
+            out["v"] = v
+            if v is not None:
+                out["v_local"] = dt.datetime.fromtimestamp(v, z).strftime("%Y-%m-%d %H:%M:%S")
+                out["now_local_date"] = dt.datetime.fromtimestamp(spec["clock"][0], z).strftime("%Y-%m-%d")
+        except Exception as e:  # noqa: BLE001
+            out.update(exc_name(e))
+    return out
+
+
+@oracle("C11")
+def o_c11(spec, obs):
+    text = spec["text"]
+    m = _re.fullmatch(r"(2[0-3]|[0-1]\d|\d):([0-5]\d|\d)", text.strip(" \t\n\r\x0b\x0c\x1c\x1d\x1e\x1f"))
+    if spec["mode"] == "free":
+        if not m and "exception" not in obs:
+            return True, "malformed clock string %r accepted -> %r" % (text, obs.get("enc"))
+        return False, "ok"
+    if "exception" in obs:
+        return True, "valid time %r raised %s" % (text, obs["exception"])
+    h, mi = int(m.group(1)), int(m.group(2))
+    want = "%s %02d:%02d:00" % (obs["now_local_date"], h, mi)
+    if obs.get("v_local") != want:
+        return True, "encode(%r) = %s = local %s, expected local %s in %s" % (text, obs["enc"], obs.get("v_local"), want, spec["zone"])
+    if obs.get("dec") != "%02d:%02d" % (h, mi):
+        return True, "decode(encode(%r)) = %r" % (text, obs.get("dec"))
+    return False, "ok"
+
+
+@kind("c13")
+def k_c13(spec):
+    from aioswitcher.schedule import tools, Days
+
+    out = {}
+    with Env(spec):
+        try:
+            out["result"] = tools.pretty_next_run(spec["start"], {Days[n] for n in spec["days"]})
+        except Exception as e:  # noqa: BLE001
+            out.update(exc_name(e))
+    return out
+
+
+@oracle("C13")
+def o_c13(spec, obs):
+    import zoneinfo
+    import datetime as dt
+
+    names = ["MONDAY", "TUESDAY", "WEDNESDAY", "THURSDAY", "FRIDAY", "SATURDAY", "SUNDAY"]
+    disp = ["Monday", "Tuesday", "Wednesday", "Thursday", "Friday", "Saturday", "Sunday"]
+    start = spec["start"]
+    days = [names.index(n) for n in spec["days"]]
+    now = dt.datetime.fromtimestamp(spec["clock"][0], zoneinfo.ZoneInfo(spec["zone"]))
+    h, m = [int(x) for x in start.split(":")]
+    if not days:
+        exp = "Due today at " + start
+    else:
+        wd = now.weekday()
+        if wd in days and (h * 60 + m) > (now.hour * 60 + now.minute):
+            exp = "Due today at " + start
+        else:
+            k = next(k for k in range(1, 8) if (wd + k) % 7 in days)
+            exp = ("Due tomorrow at " + start) if k == 1 else ("Due next %s at %s" % (disp[(wd + k) % 7], start))
+    if obs.get("result") != exp:
+        return True, "at local %s (%s) with days %s: got %r, earliest run is %r" % (now.strftime("%a %Y-%m-%d %H:%M"), spec["zone"], spec["days"], obs.get("result", obs.get("exception")), exp)
     return False, "ok"
